@@ -38,3 +38,32 @@ def decision_table(F, f, stubs, names, good, args=None, choice=True, budget=200_
             return False, "with flags %s the function returns %s" % (fl, "an unknown value" if vs is None else ("Some" if vs == {1} else ("None" if vs == {0} else "Some or None")))
         rows += 1
     return True, "the decision table was evaluated: of the %d combinations of (%s) only (%s) returns Some" % (rows, ", ".join(names), ", ".join(str(good[k]) for k in names))
+
+
+def ctoption_flag_table(F, f, stub_rx, cnt=2, flag_index=0, args=None, budget=200_000):
+    """a function returning subtle::CtOption whose is_some flag must be exactly the Choice at `flag_index` of the tuple returned by the stubbed helper
+    (e.g. the was-square flag of sqrt_ratio_i): evaluated for flag = 0 and 1.  Returns (exact, message)."""
+    class TT(Models):
+        flag = 0
+
+        def call(self, ip, fv, st, depth, t, n, a, dty):
+            if re.search(stub_rx, n):
+                out = [TOP] * cnt
+                out[flag_index] = ("st", (I(self.flag),))
+                return ("st", tuple(out))
+            return super().call(ip, fv, st, depth, t, n, a, dty)
+    for fl in (0, 1):
+        mdl = TT()
+        mdl.flag = fl
+        ip = Interp(F, mdl, step_budget=budget)
+        try:
+            ret, root_ = ip.run_root(f, args if args is not None else [TOP] * f["mir"]["arg_count"])
+        except Exception as e:
+            return False, "flag table could not be evaluated: %r" % (e,)
+        v = ip.deconst(ret) if ret is not None else None
+        c = ip.deconst(v[1][1]) if v is not None and v[0] == "st" and len(v[1]) == 2 else None
+        while c is not None and c[0] == "st" and len(c[1]) == 1:
+            c = c[1][0]
+        if c is None or c[0] != "i" or not (c[1] == c[2] == fl):
+            return False, "with the helper's flag = %d the CtOption's is_some is %s" % (fl, "unknown" if c is None or c[0] != "i" else "[%d, %d]" % (c[1], c[2]))
+    return True, "is_some is exactly the helper's validity flag (evaluated for 0 and 1)"
